@@ -771,6 +771,11 @@ func (g *Gen) Select(wantAlias bool) *GSelect {
 			names++
 			return collidePool[names-1]
 		}
+		if r.Chance(0.04) && names < 3 {
+			// a name that is also a function's name (legal: a call needs parentheses)
+			names++
+			return []string{"len", "str", "sum"}[names-1]
+		}
 		// style 0: f<n>; style 1: a back-quoted name, which keeps its case: `F<n>`.
 		// Now and then the next alias re-uses the number in the other style, so
 		// two names differ only in case.
